@@ -132,4 +132,31 @@ theorem chain_segmented_eq (ph : R → K) (ps qs : List (PlaneM K R)) (data : Li
 
 end segments
 
+section coherent
+variable {K : Type} [NonAssocSemiring K]
+
+/-- **contributions add coherently**: `Wavefront.intensity` at a sample is the squared modulus of the *sum of the complex
+amplitudes* of all fields landing there (`nsq z = |z^2|`), for any number of overlapping fields — e.g. the one field per
+segment that `propagate_dft` produces — never the sum of their intensities -/
+theorem intensity_coherent (nsq : K → K) (h0 : nsq 0 = 0) (S0 S1 : Int) (data : List (Fld K))
+    (hpos : ∀ f ∈ data, 0 < f.arr.s0 ∧ 0 < f.arr.s1) (I : Arr K) (h : wfIntensity 1 nsq S0 S1 data = some I)
+    (i j : Int) (hi : 0 ≤ i ∧ i < S0) (hj : 0 ≤ j ∧ j < S1) :
+    I.get i j = nsq (sumList data (fun f => f.emb (i - S0 / 2) (j - S1 / 2))) := by
+  obtain ⟨_, _, hget⟩ := C07.intensity_eq_normSq_field nsq h0 S0 S1 data hpos I h
+  rw [hget i j hi hj, C07.field_eq_sum S0 S1 data i j hi hj]
+
+/-- hence two descriptions with the same total field (segmented / monolithic) have the same `field` and the same
+`intensity`, sample by sample -/
+theorem views_depend_on_total (nsq : K → K) (h0 : nsq 0 = 0) (S0 S1 : Int) (A B : List (Fld K))
+    (hA : ∀ f ∈ A, 0 < f.arr.s0 ∧ 0 < f.arr.s1) (hB : ∀ f ∈ B, 0 < f.arr.s0 ∧ 0 < f.arr.s1)
+    (htot : ∀ r c, sumList A (fun f => f.emb r c) = sumList B (fun f => f.emb r c))
+    (IA IB : Arr K) (hIA : wfIntensity 1 nsq S0 S1 A = some IA) (hIB : wfIntensity 1 nsq S0 S1 B = some IB)
+    (i j : Int) (hi : 0 ≤ i ∧ i < S0) (hj : 0 ≤ j ∧ j < S1) :
+    (wfField 1 S0 S1 A).get i j = (wfField 1 S0 S1 B).get i j ∧ IA.get i j = IB.get i j := by
+  rw [C07.field_eq_sum S0 S1 A i j hi hj, C07.field_eq_sum S0 S1 B i j hi hj,
+      intensity_coherent nsq h0 S0 S1 A hA IA hIA i j hi hj, intensity_coherent nsq h0 S0 S1 B hB IB hIB i j hi hj, htot]
+  exact ⟨rfl, rfl⟩
+
+end coherent
+
 end Lentil.C03
